@@ -21,9 +21,11 @@ def partition(rng, n):
     return rs
 
 def sign_profile(rng, w):
-    """wire of a sparse matrix (nl nc nnz (i j v)*) with all stored values made non-positive / non-negative (sign-uniform
-    matrices: where a max/abs/scale slip in a norm or a pivot shows)"""
-    mode = rng.choice([-1, -1, 1])
+    """wire of a sparse matrix (nl nc nnz (i j v)*) with all stored values made non-positive / non-negative / zero
+    (sign-uniform matrices: where a max/abs/scale slip in a norm or a pivot shows; a non-empty tank holding only explicit
+    zeros - what A+(-A), setlin with a zero vector or set(0.) leave behind - is where a division by the largest stored
+    magnitude shows: seeded C14-16)"""
+    mode = rng.choice([-1, -1, 1, 0])
     w = list(w)
     for k in range(5, len(w), 3): w[k] = mode * abs(w[k])
     return w
